@@ -290,7 +290,11 @@ def adaptive_group(case):
                         if steps < 1:
                             bad("no step taken", backend, T, tol, dt0, t0)
                         if not err <= steps * tol:
-                            bad("global error exceeds steps*tolerance", backend, T, tol, dt0, t0, err=err, steps=steps)
+                            # two families: an excess of a few percent is the higher-order term of the embedded pair (the
+                            # controller bounds |y5 - y4| while the 4th-order solution is returned); anything larger is not
+                            small = err <= 1.1 * steps * tol
+                            bad("global error exceeds steps*tolerance" + (" by less than 10 percent" if small else ""),
+                                backend, T, tol, dt0, t0, err=err, steps=steps)
                         results[backend] = res.data.copy()
                         outs.add(f"steps~{min(steps, 10**int(math.log10(steps)))}")
                     d = float(np.max(np.abs(results["numpy"] - results["numba"])))
